@@ -110,3 +110,45 @@ package syncx
 //@   requires implies(x != nil, outstanding[p] >= 1)
 //@   ghost at before Signal#0: nodeLen[p.head] = 1 + nodeLen[p.head.next]
 //@   ghost at before Signal#0: outstanding[p] = outstanding[p] - 1
+
+// ---------------------------------------------------------------------------------------------
+// C07 SingleFlight: lock invariant of g.lock: the registered calls are exactly the keys with an execution in flight
+// (ghost running) and every registered call is still undone (its wait group counts 1) - so a waiter can only ever pick up
+// a call whose leader has not finished. createCall registers only absent keys, makeCall runs fn exactly once and
+// unregisters under the lock before Done, on return and on panic.
+// ---------------------------------------------------------------------------------------------
+//@ ghost var running map[*flightGroup]map[string]bool
+//@ lockinv (g *flightGroup) lock: g.calls != nil && forall(k.(string), inDom(g.calls, k) == running[g][k])
+//@ lockinv (g *flightGroup) lock: forall(k.(string), implies(inDom(g.calls, k), g.calls[k] != nil && wg(g.calls[k].wg) == 1))
+//@ guarded_by calls
+
+//@ func (g *flightGroup) createCall
+//@   property C07
+//@   flag old_at_lock
+//@   ghost at after Add#0: running[g][key] = true
+//@   ensures  c != nil
+//@   ensures  implies(done, old(running[g][key]) && c == old(g.calls[key]) && running[g] == old(running[g]))
+//@   ensures  implies(!done, !old(running[g][key]) && fresh(c) && running[g] == upd(old(running[g]), key, true) && g.calls[key] == c && wg(c.wg) == 1)
+//@   modifies running[g], mapof(g.calls)
+//@   allocates
+
+//@ func (g *flightGroup) makeCall
+//@   property C07
+//@   flag callbacks_noheap
+//@   requires c != nil && wg(c.wg) == 1
+//@   ghost at before delete#0: running[g][key] = false
+//@   call Done#0: assert !inDom(g.calls, key) && !running[g][key]
+//@   ensures  calls(fn) == old(calls(fn)) + 1 && !running[g][key] && wg(c.wg) == 0 && c.val == ret(fn, 0) && c.err == ret(fn, 1)
+//@   ensures_panic calls(fn) == old(calls(fn)) + 1 && !running[g][key] && wg(c.wg) == 0
+//@   modifies running[g], mapof(g.calls), wg(c.wg), c.val, c.err, calls(fn)
+
+//@ func (g *flightGroup) Do
+//@   property C07
+//@   flag callbacks_noheap
+//@   ensures calls(fn) <= old(calls(fn)) + 1
+//@ func (g *flightGroup) DoEx
+//@   property C07
+//@   flag callbacks_noheap
+//@   ensures calls(fn) <= old(calls(fn)) + 1
+//@   ensures implies(fresh, calls(fn) == old(calls(fn)) + 1 && val == ret(fn, 0) && err == ret(fn, 1))
+//@   ensures implies(!fresh, calls(fn) == old(calls(fn)))
